@@ -101,4 +101,23 @@ theorem shred_partition (p : List Layer) (parts : List (List (ValOf p))) :
   | nil => simp
   | cons a as ih => simp [List.flatMap_append, ih]
 
+/-- **Format constants** the specification (`encodeRun`, `uleb`, `Run.Valid`) and the proofs
+hard-code, as regenerated from the current sources by `tools/translate.py`: a change of any
+of these literals in `rle.rs` / `bit_util.rs` / `encoding/mod.rs` / `decoding.rs` breaks this
+theorem (and the model changes with it). -/
+theorem format_constants :
+    BIT_PACK_GROUP_SIZE = 8 ∧ MAX_GROUPS_PER_BIT_PACKED_RUN ≤ 128 ∧
+    RLE_INDICATOR_SHIFT = 1 ∧ BP_INDICATOR_SHIFT = 1 ∧ BP_INDICATOR_FLAG = 1 ∧
+    DEC_INDICATOR_FLAG_MASK = 1 ∧ DEC_BP_SHIFT = 1 ∧ DEC_RLE_SHIFT = 1 ∧
+    VLQ_CONT_MASK = 2 ^ 64 - 128 ∧ VLQ_PAYLOAD_MASK = 127 ∧ VLQ_CONT_BIT = 128 ∧
+    VLQ_SHIFT = 7 ∧ VLQ_READ_SHIFT = 7 ∧ 7 * MAX_VLQ_BYTE_LEN ≥ 64 ∧
+    ZIGZAG_ENC_SHL = 1 ∧ ZIGZAG_ENC_SAR = 63 ∧ ZIGZAG_DEC_SHR = 1 ∧
+    (DELTA_MINI_BLOCK_SIZE_I32 * DEFAULT_NUM_MINI_BLOCKS) % DELTA_BLOCK_MULTIPLE = 0 ∧
+    (DELTA_MINI_BLOCK_SIZE_I64 * DEFAULT_NUM_MINI_BLOCKS) % DELTA_BLOCK_MULTIPLE = 0 ∧
+    DELTA_MINI_BLOCK_SIZE_I32 % DELTA_MINI_BLOCK_MULTIPLE = 0 ∧
+    DELTA_MINI_BLOCK_SIZE_I64 % DELTA_MINI_BLOCK_MULTIPLE = 0 ∧
+    -- a bit-packed run's group count fits the single indicator byte the encoder reserves
+    ((MAX_GROUPS_PER_BIT_PACKED_RUN - 1) <<< BP_INDICATOR_SHIFT ||| BP_INDICATOR_FLAG) < 256 := by
+  decide
+
 end ArrowModel.C05
